@@ -229,6 +229,8 @@ local macro "leaf" : tactic => `(tactic| first
   | exact R2OK_pair ⟨⟨all1 (by constructor; assumption), by intro h hh; cases hh; assumption,
       not_IsPanic_of_err_none rfl⟩, ‹StOK _›⟩)
 
+-- (irreducible here only so that the failing alternatives of `leaf` fail fast)
+attribute [local irreducible] callGoal mkErr appendLists in
 theorem builtin_succ {n : Nat} (ih : StepOK n) : ∀ f args k env (m : MS), ContOK k → StOK m.user →
     R2OK (builtin (n + 1) f args k env m) := by
   intro f args k env m hk hm
